@@ -16,7 +16,7 @@ DIHEDRAL = ["U", "L", "T", "R", "C", "I"]
 
 def xf_dims(t, w, h):
     c = t[0]
-    if c in "ULINKXY": return w, h
+    if c in "ULINKXYZ": return w, h
     if c in "TRC": return h, w
     if c == "S": sx, sy = map(int, t[1:].split(",")); return (w + sx - 1) // sx, (h + sy - 1) // sy
     if c == "B": a = list(map(int, t[1:].split(","))); return a[2], a[3]
@@ -48,14 +48,14 @@ def rand_ops(r, kind, W, H, depth, allow_empty_width):
         elif canx and r.chance(1, 6): ts.append(r.choice(["X", "X", "Y"]))
     return ("/".join(ts) if ts else "-"), w, h
 
-def op_line(r, kind, W, H, ops, w, h, pad=None):
+def op_line(r, kind, W, H, ops, w, h, pad=None, word="xf"):
     g = KINDS[kind][1]
     if kind == "v": PAD, OFF = r.range(0, 40), r.range(0, 7)
     else:
         PAD = (r.choice([0, 0, 1, 2, 3, 5, 8]) if pad is None else pad) * g
         OFF = r.range(0, 7) if kind in BIT else 0
     wx, wy = (r.range(0, w - 1) if w > 0 else 0), (r.range(0, h - 1) if h > 0 else 0)
-    return "xf %s %d %d %d %d %s %d %d" % (kind, W, H, PAD, OFF, ops, wx, wy)
+    return "%s %s %d %d %d %d %s %d %d" % (word, kind, W, H, PAD, OFF, ops, wx, wy)
 
 def gen_ops(ctx):
     r, th = ctx.rng, ctx.thorough()
@@ -85,6 +85,47 @@ def gen_ops(ctx):
             W, H = r.range(0, N), r.range(0, N)
             o, w, h = rand_ops(r, kind, W, H, r.range(1, 5 if th else 3), r.chance(1, 8))
             ops.append(op_line(r, kind, W, H, o, w, h))
+        # chains built by ASSIGNMENT into already constructed views (`xa`): every dihedral pair + subsample / subimage on two shapes, random compositions
+        for (W, H) in ((3, 2), (4, 4)):
+            for a in DIHEDRAL + ["S2,3", "S1,2", "B1,0,2,2"]:
+                for b in DIHEDRAL + ["S2,1"]:
+                    w, h = xf_dims(b, *xf_dims(a, W, H))
+                    ops.append(op_line(r, kind, W, H, a + "/" + b, w, h, word="xa"))
+        for _ in range(1000 if th else 80):
+            W, H = r.range(1, N), r.range(1, N)
+            o, w, h = rand_ops(r, kind, W, H, r.range(1, 5 if th else 3), False)
+            ops.append(op_line(r, kind, W, H, o, w, h, word="xa"))
+        # stateful colour converter Z<off> (default-constructed = identity) as the last op of a random composition
+        if KINDS[kind][3]:
+            for _ in range(300 if th else 40):
+                W, H = r.range(1, N), r.range(1, N)
+                ts, w, h = [], W, H
+                for _ in range(r.range(0, 2)):
+                    t = rand_geo(r, w, h); ts.append(t); w, h = xf_dims(t, w, h)
+                    if w <= 0 or h <= 0: break
+                ops.append(op_line(r, kind, W, H, "/".join(ts + ["Z%d" % r.range(1, 255)]), w, h))
+        # dereference-adaptor views in the middle of a chain (rgb8): stateful converter / channel n >= 1 of a colour-converted view, then every transformation
+        if kind == "rgb8":
+            for (W, H) in ((4, 2), (3, 3), (1, 4)) + (((5, 4), (2, 6)) if th else ()):
+                for t in DIHEDRAL + ["S2,1", "S1,2", "B0,0,%d,%d" % (W, H - 1)]:
+                    w, h = xf_dims(t, W, H)
+                    for pre in ("Z%d" % r.range(1, 255), "X/N%d" % r.range(1, 2), "Z%d/N%d" % (r.range(1, 255), r.range(0, 2)), "X"):
+                        for word in ("xf", "xa"):
+                            ops.append(op_line(r, kind, W, H, pre + "/" + t, w, h, word=word))
+                    ops.append(op_line(r, kind, W, H, "%s/Z%d/N%d" % (t, r.range(1, 255), r.range(1, 2)), w, h))
+                    ops.append(op_line(r, kind, W, H, "%s/X/K%d" % (t, r.range(1, 2)), w, h))
+                    ops.append(op_line(r, kind, W, H, "Z%d/%s/K%d" % (r.range(1, 255), t, r.range(0, 2)), w, h))
+            for _ in range(2000 if th else 150):
+                W, H = r.range(1, N), r.range(1, N)
+                ts, w, h = [], W, H
+                ad = ["Z%d" % r.range(1, 255) if r.chance(2, 3) else "X"] + (["N%d" % r.range(0, 2)] if r.chance(1, 2) else [])
+                pos = r.range(0, 2)
+                for i in range(r.range(1, 3)):
+                    if i == pos: ts += ad; ad = []
+                    if w <= 0 or h <= 0: break
+                    t = rand_geo(r, w, h); ts.append(t); w, h = xf_dims(t, w, h)
+                ts += ad
+                ops.append(op_line(r, kind, W, H, "/".join(ts), w, h, word=r.choice(["xf", "xf", "xa"])))
         # the three compositions the pre-fix virtual locator got wrong + subsample/subimage edge shapes
         for o in ("T/U", "T/S2,1", "R/R", "T/L", "C/S1,2", "T/I", "R/U/C"):
             W, H = 4, 3
@@ -114,10 +155,10 @@ ASSUME = [
 ]
 
 def run(ctx, ops=None):
-    vlib.regen(ctx, C02_syms.NAMESPACE, C02_syms.SYMS)
+    vlib.regen(ctx, C02_syms.NAMESPACE, C02_syms.SYMS, C02_syms.extra_header(ctx.include))
     obligations, discharged = vlib.standard_proof_steps(ctx)
     with concurrent.futures.ThreadPoolExecutor(len(GROUPS)) as ex:
-        futs = {g: ex.submit(vlib.compile_harness, ctx, "harness/C02/main.cpp", "C02_g%d" % g, (), (), True, "-O1", ["KGROUP=%d" % g]) for g in GROUPS}
+        futs = {g: ex.submit(vlib.compile_harness, ctx, "harness/C02/main.cpp", "C02_g%d" % g, (), (), True, "-O0", ["KGROUP=%d" % g]) for g in GROUPS}
         bins = {g: f.result() for g, f in futs.items()}
     samples, distinct = [], 0
     bad = [(g, e) for g, (b, e) in bins.items() if b is None]
@@ -143,10 +184,11 @@ def run(ctx, ops=None):
             dist[k] = dist.get(k, 0) + 1
         ctx.cov["input_distribution"] = dist
     return vlib.finish(ctx, "proof", obligations, discharged,
-        rule="op lines `xf kind W H PAD OFF ops wx wy` over 16 source kinds (pointer interleaved 1/3/4/6/12-byte, packed 565, step, planar 8/16, "
+        rule="op lines `xf kind W H PAD OFF ops wx wy` (and `xa`: the same chain built by ASSIGNMENT into already constructed views) over 16 source kinds (pointer interleaved 1/3/4/6/12-byte, packed 565, step, planar 8/16, "
              "virtual, bit-aligned 1/2/3/4/6/12 bits): every shape w,h in 0..N, the full dihedral pair table, random compositions (depth <= 3 / 5) of "
-             "flip/rotate/transpose/subimage/subsample with nth_channel / kth_channel / color_converted where the kind has them; each op reads every pixel "
-             "of the derived view (identity tag + address) and performs one all-bits write through it; non-trivial = more than one source pixel and at least one transformation",
+             "flip/rotate/transpose/subimage/subsample with nth_channel / kth_channel / color_converted (stateless and STATEFUL converters; for rgb8 also in the middle of a chain, "
+             "channel views of colour-converted views) where the kind has them; each op reads every pixel of the derived view (identity tag + address) through view(x,y) and "
+             "seven other access paths (incl. a default-constructed locator assigned from xy_at) and performs one all-bits write through it; non-trivial = more than one source pixel and at least one transformation",
         samples=samples, distinct_nontrivial=distinct, assumptions=ASSUME, trusted_base=vlib.TRUSTED_BASE,
         extra={"input_distribution": ctx.cov.get("input_distribution", {}), "view_kinds": sorted(KINDS)})
 
